@@ -119,7 +119,7 @@ def tpl_cmd(cls, m, k, i1, i2, i3, flag, g, n, setv, lk=0, _twin=False):
         w.settle()
         for tag in ("A", "B"):
             ws = [x for x in w.W if x["req"][0] == tag]
-            ws[0]["gate"].set_result(None)
+            ws[0]["gate"].set_exception(ValueError("boom"))      # a failed task: flush / gather-and-close re-raise it
         w.settle()
         A.cancel(1); B.cancel(1)
         w.settle()
